@@ -21,7 +21,7 @@ FORBIDDEN = re.compile(r"\b(sorry|admit|native_decide|bv_decide|implemented_by)\
 
 TRUSTED_BASE = [
     "Lean 4.33 kernel; axioms allowed: propext, Classical.choice, Quot.sound (audited by #print axioms on every run); no sorry/native_decide/bv_decide/own axioms",
-    "T2 translator tools/translate_py.py (Python ast -> Lean defs over Nat) for _extract_header, _build_header, decode_int, calculate_canbus_checksum; validated by differential runs",
+    "T2 translator tools/translate_py.py (Python ast -> Lean defs over Nat) for _extract_header, _build_header, decode_int, calculate_canbus_checksum and the checker _check_header; validated by differential runs",
     "T3 correspondence (differential testing of the hand-written Lean models against the real code in-process) bounds what the hand models can claim",
     "CPython int/float arithmetic modelled as exact rationals with an explicit round-to-nearest-even (Model/Num.lean); overflow to inf and the sign of zero are not modelled",
 ]
